@@ -214,8 +214,8 @@ type row struct {
 	ref       func(a A) (interface{}, error)
 	dom       func(a A) int
 	gen       genFn
-	lim       bool                            // result strings are checked against tengo.MaxStringLen
-	limSize   func(a A, res interface{}) int  // size compared against the limit (default: longest string of the result)
+	lim       bool                                  // result strings are checked against tengo.MaxStringLen
+	limSize   func(a A, res interface{}) int        // size compared against the limit (default: longest string of the result)
 	lazy      func(i int, args []tengo.Object) bool // argument i is validated lazily for this tuple (docs silent): no type-error expectation
 	isConst   bool
 	constant  interface{}
@@ -268,19 +268,19 @@ func addConst(mod, name string, v interface{}) {
 	rowByID[r.id()] = r
 }
 
-func withDom(f func(a A) int) opt       { return func(r *row) { r.dom = f } }
-func limited() opt                      { return func(r *row) { r.lim = true } }
+func withDom(f func(a A) int) opt { return func(r *row) { r.dom = f } }
+func limited() opt                { return func(r *row) { r.lim = true } }
 func withLimSize(f func(a A, res interface{}) int) opt {
 	return func(r *row) { r.lim = true; r.limSize = f }
 }
 func withLazy(f func(i int, args []tengo.Object) bool) opt { return func(r *row) { r.lazy = f } }
-func clockRow() opt                     { return func(r *row) { r.clock = true } }
-func onPattern() opt                    { return func(r *row) { r.pattern = true } }
+func clockRow() opt                                        { return func(r *row) { r.clock = true } }
+func onPattern() opt                                       { return func(r *row) { r.pattern = true } }
 
 // ---------- results ----------
 
-func strObj(s string) tengo.Object { return &tengo.String{Value: s} }
-func intObj(i int64) tengo.Object  { return &tengo.Int{Value: i} }
+func strObj(s string) tengo.Object  { return &tengo.String{Value: s} }
+func intObj(i int64) tengo.Object   { return &tengo.Int{Value: i} }
 func fltObj(f float64) tengo.Object { return &tengo.Float{Value: f} }
 func boolObj(b bool) tengo.Object {
 	if b {
